@@ -15,6 +15,7 @@
 package ice
 
 import (
+	"bytes"
 	"encoding/binary"
 	"io"
 	"math"
@@ -196,6 +197,17 @@ func persistFields(fieldsInv []string, fieldDocs, fieldFreqs map[uint16]uint64,
 	}
 
 	return rv, nil
+}
+
+// footerCRC returns the CRC-32 that persistFooter stores in the last four bytes of the
+// file, given a footer whose crc field holds the checksum of the data section
+func footerCRC(footer *footer) (uint32, error) {
+	var buf bytes.Buffer
+	err := persistFooter(footer, &buf)
+	if err != nil {
+		return 0, err
+	}
+	return binary.BigEndian.Uint32(buf.Bytes()[footerLen-crcWidth:]), nil
 }
 
 func persistFooter(footer *footer, writerIn io.Writer) error {
